@@ -15,6 +15,9 @@ pairs `<present 0|1> <value>`.
   cap <D ints>                                             cluster capacity changed (no model state)
   dflt <name>                                              <name> is koordinator-default-quota (fall-back association)
   migrate                                                  one tick of migrateDefaultQuotaGroupsPod
+  podredef <id> <nonPreemptible> <request: D pairs>        a new pod object (new UID) under the cache key of a deleted pod
+  unresobj <id> <uid>                                      Unreserve with the pod object of incarnation <uid> (0 = first)
+  podbind <id>                                             OnPodUpdate: the bind update (spec.nodeName set) of a cached pod
 Output: `v <status code>` after `att`; after every other op one line per group sorted by name:
   `q <name> <D used> <D nonPreemptibleUsed> <D selfUsed> <D selfNonPreemptibleUsed>`.
 Anything the model does not cover (unregistered parent, a new parent inside the moved subtree, …) ⇒ `bad-op`.
@@ -126,7 +129,11 @@ def stepLine (s : DState) (line : String) : DState :=
     | some i =>
       match findP s.st.pods i with
       | none => bad s
-      | some p => if homeOf s.st p ≠ p.quota then bad s else after s (step s.st (.podDelete i)).1
+      | some p =>
+        -- handlePodDelete also clears the default quota (fix 931f7a3): a pod waiting there for the tick is deleted
+        -- from it; a pod with a second PodInfo there is outside the model
+        if (homeOf s.st p ≠ p.quota && s.st.dflt != some p.quota) || p.ghost then bad s
+        else after s (step s.st (.podDelete i)).1
     | none => bad s
   | "cap" :: _ => after s s.st
   | ["dflt", n] =>
@@ -134,6 +141,31 @@ def stepLine (s : DState) (line : String) : DState :=
     | some n => if (findQ s.st.quotas n).isNone then bad s else after s (step s.st (.setDefault n)).1
     | none => bad s
   | ["migrate"] => after s (step s.st .migrate).1
+  | "podredef" :: i :: np :: rest =>
+    match nat? i, nat? np, ints? rest with
+    | some i, some np, some xs =>
+      match findP s.st.pods i with
+      | some p =>
+        if xs.length ≠ 2 * s.st.dims || p.inCache then bad s
+        else after s (step s.st (.podRedef i (np ≠ 0) (mkRL xs))).1
+      | none => bad s
+    | _, _, _ => bad s
+  | ["unresobj", i, u] =>
+    match nat? i, nat? u with
+    | some i, some u =>
+      match findP s.st.pods i with
+      | some p => if homeOf s.st p ≠ p.quota || !p.inCache then bad s else after s (step s.st (.unreserveObj i u)).1
+      | none => bad s
+    | _, _ => bad s
+  | ["podbind", i] =>
+    match nat? i with
+    | some i =>
+      match findP s.st.pods i with
+      | some p =>
+        if !p.inCache || p.ghost || (!limbo s.st p && homeOf s.st p ≠ p.quota) then bad s
+        else after s (step s.st (.podBind i)).1
+      | none => bad s
+    | none => bad s
   | _ => bad s
 
 def runCase (lines : List String) : List String := (lines.foldl stepLine {}).out
